@@ -51,6 +51,32 @@ pub fn core_units(thorough: bool) -> Vec<Unit> {
     v
 }
 
+/// Open StreamingPulls as consumers inside the sequential model: what a stream receives is fed to the model after
+/// every step, and an open stream must have taken everything that is available (no sleeping over a backlog).
+pub fn stream_units(thorough: bool) -> Vec<Unit> {
+    use IdKind::*;
+    let alphabet = vec![
+        Op::Publish(T0, 1),
+        Op::Publish(T0, 3),
+        Op::StreamOpen(S0, 1000),
+        Op::StreamOpen(S1, 1),
+        Op::Pull(S0, 10),
+        Op::Pull(S1, 1),
+        Op::Nack(S0, Oldest),
+        Op::Nack(S1, Newest),
+        Op::Ack(S0, Newest),
+        Op::AckIds(S1, vec![Stale, A], true),
+        Op::ModIds(S0, vec![Stale, A], 30, true),
+        Op::AdvBefore,
+        Op::AdvPast,
+    ];
+    let mut v = vec![];
+    for n in if thorough { vec![4, 6] } else { vec![4, 5] } {
+        v.push(seq_unit(cfg("stream-consumers", "two subscriptions, StreamingPulls with max_outstanding 1000 and 1 opened at any point and kept open, pulls, nacks, acks and modifications (unary and as control messages), deadline crossings", base_setup(), alphabet.clone(), n)));
+    }
+    v
+}
+
 pub fn base_setup() -> Vec<Op> {
     vec![Op::CreateTopic(T0), Op::CreateSub(S0, T0, 10), Op::CreateSub(S1, T0, 10)]
 }
@@ -163,6 +189,7 @@ pub fn c05(thorough: bool) -> Vec<Unit> {
         Op::Mod(S0, Oldest, 30),
         Op::Mod(S0, Newest, 600),
         Op::Mod(S0, Newest, 1_000_000),
+        Op::Mod(S0, Oldest, 65_541),
         Op::Mod(S0, Newest, 1),
         Op::StreamMod(S0, Oldest, 20),
         Op::Ack(S0, Oldest),
@@ -341,7 +368,7 @@ pub fn c04_phase_sweep(thorough: bool) -> Unit {
 /// C05: N x id lists x (unary | streaming).
 pub fn c05_input(thorough: bool) -> Unit {
     use IdKind::*;
-    let ns: Vec<i32> = vec![i32::MIN, -1, 0, 1, 9, 10, 11, 599, 600, 601, i32::MAX];
+    let ns: Vec<i32> = vec![i32::MIN, -1, 0, 1, 9, 10, 11, 599, 600, 601, 65_535, 65_536, 65_541, 131_072 + 599, 1 << 24, i32::MAX];
     let kinds = [A, B, Stale, Unknown, BadX, BadEmpty];
     let mut lists: Vec<Vec<IdKind>> = vec![vec![]];
     for a in kinds {
